@@ -158,6 +158,40 @@ theorem tdiv_r_2exp_spec (s : Store) (w u cnt : Nat) :
     tdiv_r_2exp s w u cnt = s.set w (tdivR (s u) ((2 ^ cnt : Nat) : Int)) := tdiv_r_2exp_eq s w u cnt
 example : tdiv_q_2exp exS 0 0 1 0 = -3 ∧ tdiv_r_2exp exS 0 0 1 0 = -1 ∧ tdiv_r_2exp exS 2 0 64 2 = -7 := by decide
 
+/-! ## exact division and divisibility -/
+
+/-- mpz_divexact: for d ≠ 0 and d ∣ n (the documented domain) the call stores q with q·d = n, any aliasing,
+    all signs; the early exit for a dividend with fewer limbs than the divisor yields 0 = n/d. -/
+theorem divexact_spec (s : Store) (q n d : Nat) (hd : s d ≠ 0) (hdvd : s d ∣ s n) :
+    divexact s q n d = .ok (s.set q (divexactS (s n) (s d))) ∧ divexactS (s n) (s d) * s d = s n :=
+  ⟨divexact_eq s q n d hd, Int.tdiv_mul_cancel hdvd⟩
+example : (match divexact (fun i => if i = 0 then -91 else 7) 1 0 1 with | .ok s => s 1 | .error _ => 0) = -13 := by decide
+
+/-- mpz_divexact_ui: the same for a limb divisor u ≠ 0 with u ∣ n. -/
+theorem divexact_ui_spec (s : Store) (q n : Nat) (u : Nat) (hu : u ≠ 0) (hdvd : (u : Int) ∣ s n) :
+    divexact_ui s q n u = .ok (s.set q (divexactS (s n) u)) ∧ divexactS (s n) u * u = s n :=
+  ⟨divexact_ui_eq s q n u hu, Int.tdiv_mul_cancel hdvd⟩
+example : (match divexact_ui (fun _ => -91) 0 0 7 with | .ok s => s 0 | .error _ => 0) = -13 := by decide
+
+/-- mpz_divisible_p: non-zero exactly when d ∣ a; for d = 0 that is a = 0. -/
+theorem divisible_p_iff (a d : Int) : divisible_p a d = true ↔ d ∣ a := divisible_p_iff' a d
+theorem divisible_p_zero (a : Int) : divisible_p a 0 = true ↔ a = 0 := by
+  rw [divisible_p_iff]; exact Int.zero_dvd
+example : divisible_p (-91) 7 = true ∧ divisible_p 92 (-7) = false ∧ divisible_p 0 0 = true ∧ divisible_p 5 0 = false := by decide
+
+/-- mpz_divisible_ui_p, for every value of MODEXACT_1_ODD_THRESHOLD (the low-zero-bits shortcut and the
+    reduction to the odd part of d are sound): d ∣ a, with d = 0 meaning a = 0. -/
+theorem divisible_ui_p_iff (thr : Nat) (a : Int) (d : Nat) (hd : d < B) :
+    divisible_ui_p thr a d = true ↔ (d : Int) ∣ a := divisible_ui_p_iff' thr a d hd
+example : divisible_ui_p 0 (-96) 24 = true ∧ ¬ divisible_ui_p 0 100 24 = true ∧ divisible_ui_p 0 0 0 = true :=
+  ⟨(divisible_ui_p_iff 0 _ _ (by decide)).mpr (by decide), fun h => absurd ((divisible_ui_p_iff 0 _ _ (by decide)).mp h) (by decide),
+   (divisible_ui_p_iff 0 _ _ (by decide)).mpr (by decide)⟩
+
+/-- mpz_divisible_2exp_p: 2^d ∣ a. -/
+theorem divisible_2exp_p_iff (a : Int) (d : Nat) : divisible_2exp_p a d = true ↔ ((2 ^ d : Nat) : Int) ∣ a :=
+  divisible_2exp_p_iff' a d
+example : divisible_2exp_p (-96) 5 = true ∧ divisible_2exp_p (-96) 6 = false ∧ divisible_2exp_p (2 ^ 70) 70 = true := by decide
+
 /-! ## division by zero -/
 
 /-- every function of the family that divides raises DIVIDE_BY_ZERO for a zero divisor, before any
